@@ -1,6 +1,10 @@
 HOOK_COMMITS = ["6c92ace"]
 NOT_APPLICABLE = {}
 CHECKS = {
+ "C19": {
+  "text": "Coq: executable model of Mapping (insert/unset/get/len/is_empty/iter/serde) proven to refine a finite map for every operation sequence (insert_spec, unset_spec, iter_spec: sorted & exactly the stored pairs, len_spec, serde_roundtrip, reachable_inv); every generated operation sequence run on the real Mapping is re-proved equal to the model inside Coq (vm_compute; reflexivity).",
+  "technique": "Coq refinement proof of a functional model + in-Coq functional correspondence on operation sequences",
+ },
  "C02": {
   "text": "Coq: exhaustive reference decision procedure proven sound and complete w.r.t. 'a valid selection exists' (solvableb_correct); every verdict of the real solver is compared with it.",
   "technique": "Coq-verified complete reference decision procedure vs implementation verdict; differential over seeded universes and activity parameters",
